@@ -67,8 +67,56 @@ func loadProg(repo string, env []string, variant string) (*Prog, error) {
 	}
 	prog, _ := ssautil.AllPackages(pkgs, ssa.InstantiateGenerics)
 	prog.Build()
+	normaliseParamCells(prog)
 	p.SSA = prog
 	return p, nil
+}
+
+// normaliseParamCells: a parameter that a closure captures (fail := func(err error) error { conn.Close(); return err })
+// is spilled into a cell at the function's entry and every use in the function becomes a load of that cell. When the
+// cell is never written again (the closures only read it) the loads ARE the parameter: they are replaced by it in the
+// function's own body, so that a rule that follows a parameter sees the same program with and without the closure.
+func normaliseParamCells(prog *ssa.Program) {
+	for f := range ssautil.AllFunctions(prog) {
+		if f.Blocks == nil || f.Pkg == nil || !strings.HasPrefix(f.Pkg.Pkg.Path(), modPath) {
+			continue
+		}
+		for _, in := range f.Blocks[0].Instrs {
+			al, ok := in.(*ssa.Alloc)
+			if !ok || al.Referrers() == nil {
+				continue
+			}
+			var prm *ssa.Parameter
+			var loads []*ssa.UnOp
+			for _, ref := range *al.Referrers() {
+				if ld, isLd := ref.(*ssa.UnOp); isLd && ld.Op == token.MUL && ld.X == ssa.Value(al) {
+					loads = append(loads, ld)
+				}
+			}
+			if len(loads) == 0 {
+				continue
+			}
+			prm = paramCell(loads[0])
+			if prm == nil || prm.Parent() != f {
+				continue
+			}
+			for _, ld := range loads {
+				if ld.Parent() != f || ld.Referrers() == nil {
+					continue
+				}
+				for _, user := range *ld.Referrers() {
+					var ops []*ssa.Value
+					for _, op := range user.Operands(ops) {
+						if op != nil && *op == ssa.Value(ld) {
+							*op = prm
+							*prm.Referrers() = append(*prm.Referrers(), user)
+						}
+					}
+				}
+				*ld.Referrers() = nil
+			}
+		}
+	}
 }
 
 // --- lookups (an unresolved anchor is reported by the caller) ---
